@@ -15,7 +15,7 @@ GROUPS = {
     'state': {'deal/_state.py': ['<constants>', '_State._warn_if']},
     'dispatch': {'deal/_runtime/_dispatch.py': ['<constants>', 'Dispatch.wrap'], 'deal/_runtime/_decorators.py': ['dispatch'], 'deal/_exceptions.py': ['NoMatchError.__init__', 'NoMatchError.__str__']},
     'errors': {'deal/_exceptions.py': ['<constants>', 'ContractError.__init__', 'ContractError.source', 'ContractError.colored_source', 'ContractError.variables', 'ContractError.__str__']},
-    'decorators': {'deal/_runtime/_decorators.py': ['implies', 'catch', 'inherit']},
+    'decorators': {'deal/_runtime/_decorators.py': ['implies', 'catch', 'inherit', 'safe', 'pure', 'dispatch']},
     'testing': {'deal/_testing.py': ['<constants>', 'TestCase._check_result', 'cases.__init__', 'cases.__iter__', 'cases.__repr__', 'cases._make_case', 'cases._contracts', 'cases._pres', 'cases.strategy',
                                      'cases._default_settings', 'cases.__call__', 'cases.__func__', 'cases._run', 'cases._impersonate']},
     'imports': {'deal/_imports.py': ['<constants>', 'DealLoader.__init__', 'DealLoader.__getattr__']},
